@@ -97,27 +97,36 @@ Theorem C06_model_ignores_masked_times : forall e env1 env2,
 Proof. exact model_of_agree. Qed.
 Print Assumptions C06_model_ignores_masked_times.
 
-(** Noise estimates use observed entries only.  Diagonal rule, PARTIAL: y_L2_per_ft, n_obs_per_ft (and the scalar
-    twins y_L2, n_obs) and the statistic y_x_model on observed positions are independent of y under the mask and
-    of the model where y is masked.  Missing: the invariance carried through `-2 * y_x_model + model_x_model`
-    and the division (covered by the correspondence and the from-scratch oracle only). *)
-Theorem C06_noise_observed_only_partial : forall y y' model model',
-    wagree y y' -> weight y <> None ->
+(** Noise estimates use observed entries only — BOTH update rules (scalar_noise_std_update and
+    diagonal_noise_std_update, as the variance before the positivity check and the square root): if y changes under
+    the mask (ANY atoms there: NaN, +-inf, huge) and the model tensor changes at entries where y is not observed,
+    the updated variance is the same, or the rule fails with the same error. *)
+Theorem C06_noise_observed_only : forall y y' model model',
+    wagree y y' ->
+    shape model = shape (value y) -> shape model' = shape model ->
+    (forall m, inr (shape model) m -> observed y m -> at_ model m = at_ model' m) ->
+    ragree teq (noise_var_scalar y model) (noise_var_scalar y' model') /\
+    ragree teq (noise_var_diagonal y model) (noise_var_diagonal y' model').
+Proof. exact noise_observed_only. Qed.
+Print Assumptions C06_noise_observed_only.
+
+(** ... and so do the statistics the rules read from the state: y_L2_per_ft / n_obs_per_ft, y_L2 / n_obs, and
+    y_x_model on observed positions. *)
+Theorem C06_noise_ingredients_observed_only : forall y y' model model',
+    wagree y y' ->
     shape model = shape (value y) -> shape model' = shape model ->
     (forall m, inr (shape model) m -> observed y m -> at_ model m = at_ model' m) ->
     ragree pair_teq (y_L2_n_obs_per_ft y) (y_L2_n_obs_per_ft y') /\
     ragree pair_teq (y_L2_n_obs y) (y_L2_n_obs y') /\
     ragree wagree (y_x_model y model) (y_x_model y' model').
-Proof. exact noise_diagonal_observed_only_partial. Qed.
-Print Assumptions C06_noise_observed_only_partial.
+Proof. exact noise_ingredients_observed_only. Qed.
+Print Assumptions C06_noise_ingredients_observed_only.
 
-(** ... and FALSE of the code for the scalar rule (finding F3, signature scalar-noise:model-sq-over-unobserved). *)
-Theorem C06_noise_scalar_refuted :
-  exists (y : wt) (model model' : tensor atom) (v v' r : atom),
-    wf y /\ shape model = shape (value y) /\ shape model' = shape model /\
-    (forall m, inr (shape model) m -> observed y m -> at_ model m = at_ model' m) /\
-    noise_var_scalar y model = Ok v /\ noise_var_scalar y model' = Ok v' /\
-    rss_over_observed y model = Ok r /\
-    atom_same v v' = false /\ atom_same v r = false /\ atom_same v' r = true.
-Proof. exact noise_scalar_refuted. Qed.
-Print Assumptions C06_noise_scalar_refuted.
+(** ... and padded visits only: k more visits of weight 0 along the visit axis, with ANY y values and ANY model
+    values in them, change the variance of neither rule. *)
+Theorem C06_noise_padding : forall y w model k gy gm,
+    wf y -> weight y = Some w -> length (shape (value y)) = 3 -> shape model = shape (value y) ->
+    ragree teq (noise_var_scalar (wpad VISIT_POS k gy y) (tpad VISIT_POS k gm model)) (noise_var_scalar y model) /\
+    ragree teq (noise_var_diagonal (wpad VISIT_POS k gy y) (tpad VISIT_POS k gm model)) (noise_var_diagonal y model).
+Proof. exact noise_padding. Qed.
+Print Assumptions C06_noise_padding.
